@@ -1388,3 +1388,43 @@ func codecHexLimit(b []byte, limit int) string {
 	}
 	return hex.EncodeToString(b)
 }
+
+
+// ---- reporters used the way periodic reporting uses them ------------------------------------
+
+// partialWriter accepts limit bytes, then fails every Write (having accepted what still fitted).
+type partialWriter struct {
+	limit int
+	n     int
+}
+
+var errPartialWrite = errors.New("verif: injected write error (output full)")
+
+func (w *partialWriter) Write(p []byte) (int, error) {
+	room := w.limit - w.n
+	if room >= len(p) {
+		w.n += len(p)
+		return len(p), nil
+	}
+	if room < 0 {
+		room = 0
+	}
+	w.n += room
+	return room, errPartialWrite
+}
+
+// reportAgain uses ONE reporter several times, as `report -every` does: first into a writer that
+// takes failAfter bytes and then fails (the error is the reporter's to return, not judged here),
+// then twice into sound buffers. It returns the two renderings that succeeded: a reporter carries
+// nothing over from an earlier call, failed or not, so both are to be judged like a first one.
+func reportAgain(rep vegeta.Reporter, failAfter int) ([][]byte, error) {
+	_ = rep.Report(&partialWriter{limit: failAfter})
+	var first, second bytes.Buffer
+	if err := rep.Report(&first); err != nil {
+		return nil, err
+	}
+	if err := rep.Report(&second); err != nil {
+		return [][]byte{first.Bytes()}, err
+	}
+	return [][]byte{first.Bytes(), second.Bytes()}, nil
+}
